@@ -421,10 +421,10 @@ def plan(ctx, rnd):
     quick = ctx.tier == "quick"
     sc = []
     sid = 0
-    reps = 1 if quick else 3
+    reps = 1 if quick else 2
     for rep in range(reps):
         for m in MODELS:
-            for ngroup in ((1,) if quick else (1, 2)):
+            for ngroup in ((1,) if (quick or rep > 0) else (1, 2)):
                 sc.append((sid, m, ngroup, True, {"fd": m in ("default", "cfit"), "bounds": m == "default" or (not quick and m in ("extended", "cfit_extended")),
                                                  "all_batches": m == "default" or not quick, "tie": False, "hess_batches": m in ("default", "cfit") or not quick}))
                 sid += 1
